@@ -45,7 +45,9 @@ def mk_kex(peer):
     from ssh_audit.ssh2_kexparty import SSH2_KexParty
     from ssh_audit.outputbuffer import OutputBuffer
     p = SSH2_KexParty(list(peer['enc']), list(peer['mac']), list(peer.get('comp', ['none'])), [''])
-    k = SSH2_Kex(OutputBuffer(), b'\0' * 16, list(peer['kex']), list(peer['key']), p, p, False, 0)
+    # the other direction (client-to-server) may advertise something else; policies are about the server-to-client lists
+    pc = SSH2_KexParty(list(peer.get('enc_c', peer['enc'])), list(peer.get('mac_c', peer['mac'])), list(peer.get('comp_c', peer.get('comp', ['none']))), [''])
+    k = SSH2_Kex(OutputBuffer(), b'\0' * 16, list(peer['kex']), list(peer['key']), pc, p, False, 0)
     for t, (sz, cat, cas) in (peer.get('hks') or {}).items():
         k.set_host_key(t, b'', sz, cat, cas)
     for t, sz in (peer.get('dh') or {}).items():
@@ -343,6 +345,20 @@ def strat_full():
             peer['dh'] = pdh
         if comp_on:
             pol['comp'] = ['none']
+        if edits[0] % 4 == 0:
+            # a second and third size entry; the peer may lack the algorithm of any of them
+            extra_dh = {'diffie-hellman-group-exchange-sha1': [2048, 3072][sizes[1] % 2], 'diffie-hellman-group-exchange-sha256@ssh.com': 4096}
+            pol['dh'] = dict(dh, **extra_dh)
+            peer['dh'] = dict(pdh, **{k: v + [0, 1024, -1024][(sizes[2] + i) % 3] for i, (k, v) in enumerate(extra_dh.items()) if (sizes[3] + i) % 2})
+            extra_hk = {'rsa-sha2-512': {'hostkey_size': 3072}, 'ssh-dss': {'hostkey_size': 1024}}
+            pol['hks'] = dict(hks, **extra_hk)
+            peer['hks'] = dict(phks, **{k: [v['hostkey_size'] + [0, 1024, -512][(sizes[4] + i) % 3], '', 0] for i, (k, v) in enumerate(extra_hk.items()) if (sizes[5] + i) % 2})
+        if edits[1] % 5 == 0:
+            pol['client'] = True
+        if edits[2] % 3 == 0:
+            peer['enc_c'] = ['other-cipher'] + peer['enc'][:1]
+            peer['mac_c'] = peer['mac'][::-1] + ['other-mac']
+            peer['comp_c'] = ['zlib']
         if banner_on:
             pol['banner'] = 'SSH-2.0-OpenSSH_9.1'
         return {'kind': 'full', 'pol': pol, 'peer': peer, 'del': [[f, idx] for f, idx in dels], 'grow': grow}
